@@ -153,33 +153,121 @@ def theorem_names(prop_file):
     return [prefix + m.group(1) for m in re.finditer(r'^\s*(?:protected\s+|private\s+)?theorem\s+([^\s:({\[]+)', txt, re.M)]
 
 
+PRISTINE = os.path.join(LEAN, 'pristine', 'Gen')    # committed copies of Gen/*.lean as generated from the unchanged /repo
+GEN_DIR = os.path.join(LEAN, 'ZepidVerif', 'Gen')
+
+
+def _module_imports(mod):
+    p = os.path.join(LEAN, mod.replace('.', os.sep) + '.lean')
+    if not os.path.exists(p):
+        return []
+    with open(p) as f:
+        return [m for m in re.findall(r'^import\s+(\S+)', f.read(), re.M) if m.startswith(('ZepidVerif', 'Driver'))]
+
+
+def gen_deps(mod):
+    """names of the generated files (e.g. 'Fit.lean') a Lean module of this project transitively imports"""
+    seen, todo = set(), [mod]
+    while todo:
+        for m in _module_imports(todo.pop()):
+            if m not in seen:
+                seen.add(m)
+                todo.append(m)
+    return {m.split('.')[-1] + '.lean' for m in seen if m.startswith('ZepidVerif.Gen.')}
+
+
+_OPS_MODULE = {}
+
+
+def ops_module(op):
+    """the Driver/Ops module that defines a driver operation (read from the ops tables)"""
+    if not _OPS_MODULE:
+        d = os.path.join(LEAN, 'Driver', 'Ops')
+        for fn in os.listdir(d):
+            if fn.endswith('.lean'):
+                with open(os.path.join(d, fn)) as f:
+                    txt = strip_comments(f.read())
+                for name in re.findall(r'\(\s*"([^"\s]+)"\s*,', txt):
+                    _OPS_MODULE.setdefault(name, fn[:-5])
+    return _OPS_MODULE.get(op)
+
+
 def lean_gate(pid, required, tier='quick'):
     """Regenerate Gen/, build the property module and the driver, audit axioms.
-    Returns dict(ok, obligations, discharged, failures[list of str], gen_status, log)."""
+    Returns dict(ok, obligations, discharged, failures[list of str], gen_status, log).
+
+    The translator works definition by definition: a definition whose source it can no longer translate is left out
+    of its generated file (with the reason), so the theorems and driver operations that use it stop compiling and
+    nothing else does.  It is charged to this property exactly when `Props/<pid>.lean` no longer builds.  The driver is
+    one executable for all properties: when it no longer builds from what the translator produced now, it is built
+    with the committed pristine copy (`lean/pristine/Gen`) of every generated file that differs from it -- for this
+    check the generated definitions behind its operations are then a hand-kept model like any other, and gate K
+    (model against the implementation as it is now) decides whether they still correspond."""
     import py2lean
     res = {'ok': False, 'obligations': 0, 'discharged': 0, 'failures': [], 'gen_status': {}, 'log': '',
-           'driver_ok': False}
+           'driver_ok': False, 'gen_bad': {}, 'driver_fallback': []}
     t0 = time.time()
+    # the property's theorems: Props/<pid>.lean plus its tie-to-the-source modules Props/<pid>_*.lean (bridge theorems
+    # about generated definitions live there, so that other properties importing Props/<pid>.lean do not depend on them)
+    pdir = os.path.join(LEAN, 'ZepidVerif', 'Props')
+    prop_files = [os.path.join(pdir, pid + '.lean')] + sorted(
+        os.path.join(pdir, f) for f in os.listdir(pdir) if f.startswith(pid + '_') and f.endswith('.lean'))
+    mods = ['ZepidVerif.Props.' + os.path.basename(f)[:-5] for f in prop_files]
+    res['modules'] = mods
+    mine = set()
+    for m in mods:
+        mine |= gen_deps(m)
     with build_lock():
         res['gen_status'] = py2lean.regenerate()
+        tr_notes = []
         for k, v in res['gen_status'].items():
-            if v.startswith('unsupported'):
-                res['failures'].append('translator %s: %s' % (k, v))
+            if v.startswith(('unsupported', 'partial')):
+                res['gen_bad'][k] = v
+                if k in mine:
+                    tr_notes.append('translator %s: %s' % (k, v))
         rc, out = _run(['lake', 'build', 'zvdriver'])
+        if rc != 0:
+            # the driver is shared: rebuild it with the pristine copy of every generated file that differs from it
+            swapped = {}
+            for name in sorted(os.listdir(GEN_DIR)):
+                pri = os.path.join(PRISTINE, name)
+                cur = os.path.join(GEN_DIR, name)
+                if name.endswith('.lean') and os.path.exists(pri):
+                    with open(cur) as f:
+                        a = f.read()
+                    with open(pri) as f:
+                        b = f.read()
+                    if a != b:
+                        swapped[name] = a
+                        with open(cur, 'w') as f:
+                            f.write(b)
+            if swapped:
+                first_log = out
+                rc, out = _run(['lake', 'build', 'zvdriver'])
+                for name, a in swapped.items():
+                    with open(os.path.join(GEN_DIR, name), 'w') as f:
+                        f.write(a)
+                if rc == 0:
+                    res['driver_fallback'] = sorted(swapped)
+                    res['driver_fallback_log'] = first_log[-2000:]
         res['driver_ok'] = rc == 0 and os.path.exists(DRIVER)
         if not res['driver_ok']:
             res['failures'].append('driver build failed')
             res['log'] += out[-3000:]
-        mod = 'ZepidVerif.Props.%s' % pid
-        rc, out = _run(['lake', 'build', mod])
+        rc, out = _run(['lake', 'build'] + mods)
         if rc != 0:
-            res['failures'].append('lake build %s failed' % mod)
+            # a definition the translator had to leave out matters to this property exactly when its theorems stop
+            # compiling without it
+            res['failures'].extend(tr_notes)
+            res['failures'].append('lake build %s failed' % ' '.join(mods))
             res['log'] += out[-6000:]
             # which theorems break?  (best effort: error lines carry file:line)
             errs = re.findall(r'error: (\S+?\.lean):(\d+):\d+: (.*)', out)
             res['build_errors'] = ['%s:%s %s' % e for e in errs[:20]]
-    prop_file = os.path.join(LEAN, 'ZepidVerif', 'Props', pid + '.lean')
-    names = theorem_names(prop_file) if os.path.exists(prop_file) else []
+    names = []
+    for pf in prop_files:
+        if os.path.exists(pf):
+            names += theorem_names(pf)
     res['obligations'] = len(names)
     short = {n.split('.')[-1] for n in names}
     for r in required:
@@ -193,7 +281,7 @@ def lean_gate(pid, required, tier='quick'):
         os.makedirs(adir, exist_ok=True)
         afile = os.path.join(adir, pid + '.lean')
         with open(afile, 'w') as f:
-            f.write('import ZepidVerif.Props.%s\n' % pid + ''.join('#print axioms %s\n' % n for n in names))
+            f.write(''.join('import %s\n' % m for m in mods) + ''.join('#print axioms %s\n' % n for n in names))
         rc, out = _run(['lake', 'env', 'lean', afile])
         res['audit_cmd'] = 'lake env lean .lake/audit/%s.lean' % pid
         if rc != 0:
@@ -215,7 +303,7 @@ def lean_gate(pid, required, tier='quick'):
             res['axioms'] = {n: sorted(v) for n, v in seen.items()}
     if tier == 'thorough' and not res['failures']:
         # independent re-check of the compiled property module (and everything it imports from this project)
-        rc, out = _run(['lake', 'env', 'leanchecker', 'ZepidVerif.Props.%s' % pid])
+        rc, out = _run(['lake', 'env', 'leanchecker'] + mods)
         res['leanchecker'] = 'ok' if rc == 0 else 'FAILED'
         if rc != 0:
             res['failures'].append('leanchecker rejected ZepidVerif.Props.%s' % pid)
@@ -228,6 +316,8 @@ def lean_gate(pid, required, tier='quick'):
 class Driver:
     """Persistent native model process speaking the line protocol."""
 
+    used_ops = set()       # every operation any Driver of this process was asked (for the dependency decision)
+
     def __init__(self):
         self.p = None
 
@@ -239,6 +329,7 @@ class Driver:
     def ask(self, op, **kw):
         if self.p is None or self.p.poll() is not None:
             self.start()
+        Driver.used_ops.add(op)
         line = op + ''.join(' %s=%s' % (k, v) for k, v in kw.items())
         self.p.stdin.write(line + '\n')
         self.p.stdin.flush()
@@ -353,6 +444,9 @@ class Check:
         wall = time.time() - self.t0
         violations = 0
         lines = []
+        if lean.get('gen_bad') or lean.get('driver_fallback'):
+            self.extra['translator_incomplete'] = lean.get('gen_bad')
+            self.extra['driver_built_with_pristine_copy_of'] = lean.get('driver_fallback')
         for fid, (e, case) in sorted(self.known_hits.items()):
             lines.append('KNOWN-FINDING: property=%s %s' % (self.pid, e['what']))
         if self.d_fail:
@@ -374,7 +468,7 @@ class Check:
             lines.append('VIOLATION property=%s replay=%s no-failing-input-found' % (self.pid, path))
         cov = {
             'obligations': lean['obligations'], 'discharged': lean['discharged'],
-            'checker_cmd': 'cd lean && lake build ZepidVerif.Props.%s && %s' % (self.pid, lean.get('audit_cmd', '')),
+            'checker_cmd': 'cd lean && lake build %s && %s' % (' '.join(lean.get('modules') or ['ZepidVerif.Props.' + self.pid]), lean.get('audit_cmd', '')),
             'trusted_base': TRUSTED_BASE,
             'evaluations': self.evals, 'distinct_nontrivial': len(self.nontrivial), 'rule': rule,
             'samples': self.samples or ['(no case generated)'],
